@@ -210,6 +210,9 @@ def import_function(qualname):
 
 
 def run(replay):
+    global RTOL, ATOL
+    RTOL = float(replay.get("rtol", RTOL))
+    ATOL = float(replay.get("atol", ATOL))
     ns = base_namespace()
     inputs = {k: to_value(v) for k, v in replay["inputs"].items() if not k.startswith("__")}
     sizes = replay["inputs"].get("__sizes__", {})
